@@ -730,6 +730,39 @@ def minimal_items(traits, depth=0, full=False):
     return items
 
 
+def random_items(traits, rnd, depth=0):
+    """like minimal_items, driven by a caller-supplied random.Random: optional fields with p=1/2, groups of 0-2 elements, varied values, random insertion order"""
+    items = []
+    pairs = dict(traits.pairs())
+    data_of = {b: a for a, b in pairs.items()}
+    first = traits.first()
+    for tr in traits.list:
+        if tr.automatic or tr.ft in EXCLUDED_FT or tr.tag in data_of:
+            continue
+        must = tr.man or (depth > 0 and first is not None and tr.tag == first.tag) or (tr.tag in pairs and traits[pairs[tr.tag]].man)
+        if not must and rnd.random() < 0.5:
+            continue
+        if tr.grp:
+            ne = rnd.randint(1 if tr.man else 0, 2)
+            els = [random_items(tr.sub, rnd, depth + 1) for _ in range(ne)] if tr.sub and tr.sub.list else []
+            items.append({'t': tr.tag, 'k': 'i' if is_int(tr.ft) else 's', 'v': len(els) if is_int(tr.ft) else str(len(els)), 'g': els})
+        elif tr.tag in pairs:
+            content = ''.join(rnd.choice('ab=\x01|9') for _ in range(rnd.randint(1, 12)))
+            items.append({'t': tr.tag, 'k': 'i', 'v': len(content)})
+            items.append({'t': pairs[tr.tag], 'k': 's', 'v': content})
+        elif tr.ft == FT_data or (tr.ft == FT_Length and not tr.man):
+            continue
+        else:
+            k, v = default_value(tr.ft, rnd.randint(0, 400))
+            items.append({'t': tr.tag, 'k': k, 'v': v})
+    rnd.shuffle(items)
+    return items
+
+
+def random_spec(schema, mtype, rnd):
+    return {'type': mtype, 'h': random_items(schema.header, rnd), 'b': random_items(schema.traits(mtype), rnd), 't': random_items(schema.trailer, rnd)}
+
+
 def minimal_spec(schema, mtype, full=False):
     return {'type': mtype, 'h': minimal_items(schema.header, 0, full), 'b': minimal_items(schema.traits(mtype), 0, full),
             't': minimal_items(schema.trailer, 0, full)}
